@@ -6,9 +6,13 @@
 (* is (a prefix of) a behaviour of WSDeadline; its invariants are evaluated in every state on  *)
 (* the way.  run/core.py cuts the global trace into one sub-trace per (connection, direction), *)
 (* separated by NcReset lines; nothing else is done to the lines.                              *)
-(*   NcSet(dur)      SetRead/WriteDeadline, logged under the timer mutex: 0 = cleared, 1 = a   *)
-(*                   time that has passed, > 5 s = "far" (cannot pass within an execution),    *)
-(*                   otherwise a deadline that is ahead and will pass                           *)
+(*   NcSetBegin(cls) / NcSet   SetRead/WriteDeadline, under the timer mutex, before it changes  *)
+(*                   anything and after it has changed everything: 0 = cleared, 1 = a time     *)
+(*                   that has passed, 3 = more than 5 s ahead ("far": cannot pass within an    *)
+(*                   execution), 2 = ahead and will pass.  The call in progress looks at the   *)
+(*                   expired flag WITHOUT the timer mutex, so the flag's reset can be seen     *)
+(*                   before the closing line is written: SetDeadline is placed anywhere        *)
+(*                   between the two lines                                                      *)
 (*   NcCbEnter / NcCbStale / NcTimerActive / NcTimerIdle   the callback, under the timer mutex *)
 (*   NcEntry(flag)   the entry check of a call, under the timer mutex: the expired flag as the *)
 (*                   check leaves it                                                            *)
@@ -24,12 +28,13 @@ EXTENDS WSDeadline, Sequences, Json, IOUtils
 Log == ndJsonDeserialize(IOEnv.TRACE_FILE)
 VARIABLES l,     \* next line
           cg,    \* goroutine of the application's calls in this direction (0: none seen yet)
-          pun    \* the call's UnlockPre line has been read, its CallUnlock has not been placed yet
-tvars == <<l, cg, pun>>
+          pun,   \* the call's UnlockPre line has been read, its CallUnlock has not been placed yet
+          pset   \* the deadline of a SetDeadline that has logged NcSetBegin and whose step has not been placed yet ("no": none)
+tvars == <<l, cg, pun, pset>>
 e == Log[l]
 Cls(d) == IF d = 0 THEN "none" ELSE IF d = 1 THEN "past" ELSE IF d = 3 THEN "far" ELSE "future"   \* classes computed by the driver from the time left
 
-TInit == Init /\ l = 1 /\ cg = 0 /\ pun = FALSE /\ TLCSet(1, 1)
+TInit == Init /\ l = 1 /\ cg = 0 /\ pun = FALSE /\ pset = "no" /\ TLCSet(1, 1)
 
 (* NcTimerIdle: the callback got the call lock, marks the direction expired and lets go of both locks; the line is written while *)
 (* it holds both, so nobody can have observed the steps in between: CbIdle . CbMark as one step                                  *)
@@ -52,7 +57,8 @@ Reset == /\ deadline' = "none" /\ armed' = FALSE /\ inflight' = {} /\ nextId' = 
 Stutter == UNCHANGED vars
 Mapped ==
   CASE e.ev = "NcReset" -> Reset
-    [] e.ev = "NcSet" -> SetDeadline(Cls(e.b))
+    [] e.ev = "NcSetBegin" -> pset = "no" /\ Stutter
+    [] e.ev = "NcSet" -> IF pset = "no" THEN Stutter ELSE SetDeadline(pset)
     [] e.ev = "NcCbEnter" -> \E c \in Oldest : CbEnter(c)
     [] e.ev = "NcCbStale" -> \E c \in Cur : CbStale(c)
     [] e.ev = "NcTimerActive" -> \E c \in Cur : CbActive(c)
@@ -69,13 +75,15 @@ Mapped ==
 Consume == /\ ~FireNow /\ l <= Len(Log) /\ l' = l + 1
            /\ cg' = IF e.ev = "NcReset" THEN 0 ELSE IF e.ev = "NcEntry" THEN e.g ELSE cg
            /\ pun' = IF e.ev = "NcReset" THEN FALSE ELSE IF e.ev = "UnlockPre" /\ e.g = cg THEN TRUE ELSE pun
+           /\ pset' = IF e.ev \in {"NcReset", "NcSet"} THEN "no" ELSE IF e.ev = "NcSetBegin" THEN Cls(e.b) ELSE pset
            /\ Mapped
 Silent == /\ l <= Len(Log) /\ l' = l /\ cg' = cg
-          /\ IF FireNow THEN Fire /\ pun' = pun
-             ELSE \/ Tick /\ pun' = pun
-                  \/ call.pc = "entered" /\ CallLock /\ pun' = pun
-                  \/ call.pc = "locked" /\ CallCheck /\ pun' = pun
-                  \/ pun /\ CallUnlock /\ pun' = FALSE
+          /\ IF FireNow THEN Fire /\ UNCHANGED <<pun, pset>>
+             ELSE \/ Tick /\ UNCHANGED <<pun, pset>>
+                  \/ call.pc = "entered" /\ CallLock /\ UNCHANGED <<pun, pset>>
+                  \/ call.pc = "locked" /\ CallCheck /\ UNCHANGED <<pun, pset>>
+                  \/ pun /\ CallUnlock /\ pun' = FALSE /\ pset' = pset
+                  \/ pset # "no" /\ SetDeadline(pset) /\ pset' = "no" /\ pun' = pun
 TNext == Consume \/ Silent
 HW == TLCSet(1, IF TLCGet(1) < l THEN l ELSE TLCGet(1))
 Accepted == IF TLCGet(1) = Len(Log) + 1 THEN TRUE
